@@ -235,6 +235,9 @@ func (e *c20Engine) generate(seed uint64) (*kit.Trace, *kit.Rng) {
 		if cr.Chance(1, 4) {
 			t.Config["gcs_warm"] = 1
 		}
+		if cr.Chance(1, 3) {
+			t.Config["gcs_deser"] = 1
+		}
 		e.genGCS(t, cr, wr, nt, maxOps)
 		return t, root.Sub("schedule")
 	}
@@ -467,6 +470,7 @@ type c20World struct {
 
 	gf      *gcs.Filter
 	gM      uint64
+	gP      uint8
 	gkey    [16]byte
 	gitems  [][]byte
 	gq      [][][]byte
@@ -530,6 +534,19 @@ func buildWorld(t *kit.Trace) (*c20World, error) {
 		}
 		w.gf = f
 		w.gM = uint64(gM)
+		w.gP = uint8(gP)
+		if t.Cfg("gcs_deser", 0) == 1 {
+			// the shared filter is one rebuilt from its serialisation
+			nb, err := f.NBytes()
+			if err != nil {
+				return nil, err
+			}
+			d, err := gcs.FromNBytes(uint8(gP), uint64(gM), nb)
+			if err != nil {
+				return nil, err
+			}
+			w.gf = d
+		}
 		return w, nil
 	}
 	if len(w.msgs) == 0 {
@@ -784,7 +801,7 @@ func (e *c20Engine) execute(t *kit.Trace, srng *kit.Rng, st *kit.Stats, record b
 		// concurrently (a warm-up on the shared object would hide it). Some
 		// runs warm the shared filter up on purpose.
 		shared := w.gf
-		twin, err := gcs.BuildGCSFilter(shared.P(), w.gM, w.gkey, w.gitems)
+		twin, err := gcs.BuildGCSFilter(w.gP, w.gM, w.gkey, w.gitems)
 		if err != nil {
 			st.Runs++
 			return out
